@@ -71,7 +71,7 @@ def shard_slice(seq, shard, nshards):
 # decimal (non-dyadic) domain
 # ----------------------------------------------------------------------
 # mostly three plain labels (same-labelled neighbours must stay frequent); now and then text that is not in Unicode normal form
-DEFAULT_LABELS = ["a", "b", "c"] * 6 + ["e\u0301", "\u212b", "\u00a0nb", "w\u3000"]  # (the last two are padded with no-break / ideographic space: tiers store them trimmed)
+DEFAULT_LABELS = ["a", "b", "c"] * 8 + ["e\u0301", "\u212b", "\u00a0nb", "w\u3000", "L-L%", "{0}"]  # (two are padded with no-break / ideographic space: tiers store them trimmed; two carry characters that mean something to a format string)
 LABELS = ["a", "b", "c", "aa", "x y", "", "é", "7", "e\u0301"]  # the last two look alike: precomposed and decomposed
 
 
